@@ -769,6 +769,27 @@ def _schedule(repo, col):
                     got[nm_] = v_.name
         col.check(got == kernels, R, fi, f"{fname}: kernel per solver name", str(got), f"kernels are {got}, expected {kernels}", node=node)
         _level_io(repo, col, fi)
+        if fname == "_backsub_level":
+            # the rows of a back-substituted level are SOLVED (solves holds x): their diagonal is handed on as 1, for every compartment
+            # of the level's branches -- the next level divides by diags[last(parent)] when it eliminates the parents' lower couplings
+            r_ = exk.merged_return() if len(exk.returns) != 1 else exk.returns[0]
+            dg = None
+            if r_ is not None and r_.op == "tuple":
+                dg = next((a_ for a_ in r_.args if T.find(a_, lambda x: x.op == "param" and x.name == "diags") is not None and
+                           T.find(a_, lambda x: x.op == "param" and x.name in ("solves", "lowers")) is None), None)
+            if dg is None:
+                col.unk(R, fi, f"{fname}: the diagonal of the solved rows is handed on as 1", "returned diagonal not found", node=node)
+            else:
+                lvl = next((p_ for p_ in fi.params if p_ not in ("diags", "lowers", "solves", "uppers", "idx") and "solver" not in p_), None)
+                ok_ = dg.op == "mcall" and dg.name == "set" and len(dg.args) == 2 and dg.args[1].op == "const" and dg.args[1].name in (1, 1.0) and \
+                    dg.args[0].op == "sub" and dg.args[0].args[0].op == "attr" and dg.args[0].args[0].name == "at" and \
+                    dg.args[0].args[0].args[0].op == "param" and dg.args[0].args[0].args[0].name == "diags" and \
+                    dg.args[0].args[1].op == "mcall" and dg.args[0].args[1].name == "branch" and \
+                    T.find(dg.args[0].args[1], lambda x: x.op == "param" and x.name == lvl) is not None
+                col.check(ok_, R, fi, f"{fname}: the diagonal of the solved rows is handed on as 1, for every compartment of the level", "diags.at[idx.branch(level)].set(1.0)",
+                          f"the diagonal is returned as {dg.short(110)}: the parents' rows keep their triangulated diagonal (at least the first compartment of each "
+                          f"branch), and the next level computes solves[last(parent)] / diags[last(parent)] with it -- wrong whenever a parent branch has one "
+                          f"compartment", node=node)
 
 
 def _level_io(repo, col, fi):
